@@ -444,6 +444,13 @@ type E2EOutcome struct {
 // ExecE2E runs the case; nil error = everything matched the model.
 func ExecE2E(c E2ECase, bound time.Duration) (*E2EOutcome, error) {
 	bound *= WatchdogScale()
+	// a time budget must follow the amount of work: large documents relayed in tiny segments cost one
+	// rendezvous per segment (about 2-50 us each, depending on load)
+	total := 0
+	for _, st := range c.Steps {
+		total += 2 * len(st.Params)
+	}
+	bound += workAllowance(total, append(append([]int(nil), c.CutsC2S...), c.CutsS2C...), c.Proxy)
 	out := &E2EOutcome{}
 	env, err := startE2E(c.Ifaces, c.Transport, false)
 	if err != nil {
@@ -687,6 +694,20 @@ func ExecE2E(c E2ECase, bound time.Duration) (*E2EOutcome, error) {
 		}
 	}
 	return out, nil
+}
+
+// workAllowance is the extra time granted for moving total bytes in segments of the smallest cut size.
+func workAllowance(total int, cuts []int, segmented bool) time.Duration {
+	min := 65536
+	if segmented {
+		for _, c := range cuts {
+			if c > 0 && c < min {
+				min = c
+			}
+		}
+	}
+	writes := total/min + 1
+	return time.Duration(writes)*100*time.Microsecond + time.Duration(total/1000)*time.Millisecond
 }
 
 // CheckWireStream verifies the framing validity predicate of C02 on captured bytes.
